@@ -112,6 +112,8 @@ type FS struct {
 	// NilEmptyListing makes ReadDir return a nil slice (not an empty one) for an empty directory,
 	// which fs.ReadDirFS permits.
 	NilEmptyListing bool
+	// MaxBatch > 0 makes a directory handle's ReadDir(n) return at most MaxBatch entries per call.
+	MaxBatch int
 	Faults        map[string]error
 
 	mu  sync.Mutex
@@ -325,6 +327,9 @@ func (d *dirFile) ReadDir(n int) ([]fs.DirEntry, error) {
 			d.off++
 		}
 		return out, nil
+	}
+	if d.m.MaxBatch > 0 && n > d.m.MaxBatch {
+		n = d.m.MaxBatch // a short batch: fs.ReadDirFile allows fewer than n entries without an error
 	}
 	var out []fs.DirEntry
 	for len(out) < n {
